@@ -3,7 +3,7 @@
     Run from the directory that should receive model.ml / model.mli. *)
 From Coq Require Import ExtrOcamlBasic.
 From Coq Require Import List NArith ZArith.
-From WB Require Import Num Base Props World Kernels Features Plume Bezier.
+From WB Require Import Num Base Props World Kernels Features Plume Bezier Apps.
 
 Extraction Language OCaml.
 Extraction "model.ml"
@@ -13,4 +13,5 @@ Extraction "model.ml"
   cross_dir map2d cartesian_to_spherical spherical_to_cartesian great_circle_distance
   approx merge_values values_min values_max polygon_contains polygon_contains_impl find_closest_points surface_local_value in_triangle
   area_to_feature plume_to_feature plume_rel_distance
-  bezier_build bezier_eval closest_point_cartesian.
+  bezier_build bezier_eval closest_point_cartesian
+  parallel_for.
